@@ -13,7 +13,9 @@ SCHEMES = ["{locale}/{res_id}", "res/{locale}/{res_id}", "{res_id}", "{locale}",
            "{res_id}/{locale}", "{locale}/{locale}/{res_id}", "x{locale}{res_id}{res_id}", "static.ftl",
            "{locale}/{res_id}.ftl", "{{locale}}/{res_id}", "{locale/{res_id}", "{res_id}{locale}",
            "{loc{locale}ale}/{res_id}", "{res_{locale}id}/{res_id}", "{locale}/{res_id}/{locale}/{res_id}",
-           "l={locale}&r={res_id}", "{res_id}_{locale}_{res_id}", "{locale}{locale}", "{res_id}}{{locale}"]
+           "l={locale}&r={res_id}", "{res_id}_{locale}_{res_id}", "{locale}{locale}", "{res_id}}{{locale}",
+           # non-ASCII characters in the LITERAL part of the scheme (directory and file names)
+           "übersetzungen/{locale}/{res_id}", "{locale}/größe_{res_id}", "日本/{locale}/{res_id}", "{locale}/{res_id}.é", "😀{locale}/{res_id}"]
 LOCALES = ["en-US", "pl", "fr", "de-AT", "sr-Cyrl", "en"]
 RES_IDS = ["main.ftl", "extra.ftl", "sub/menu.ftl", "{locale}", "{res_id}", "a{locale}b.ftl", "errors.ftl", "m"]
 IDS = ["A", "b", "C-D", "key_1", "Z9", "msg-x"]
@@ -45,7 +47,7 @@ class C19(Base):
     ID = "C19"
     AREA = "rm"
     LEMMA_FILES = ["FluentProofs/ResMgr.lean", "FluentProofs/Registry.lean"]
-    RULE = ("random scenarios: a path scheme out of 20 (0-4 placeholders at any position, doubled, adjacent, with "
+    RULE = ("random scenarios: a path scheme out of 25 (0-4 placeholders at any position, doubled, adjacent, with "
             "stray braces, placeholder text inside resource ids), 1-3 locales, 1-4 resource ids, then 4-16 steps mixing "
             "file-system mutations of the addressed paths (write a structured resource with Junk / duplicate ids, "
             "invalid UTF-8, directory instead of file, remove) with get_bundle requests (repeated ids, several "
@@ -112,7 +114,12 @@ class C19(Base):
 
         def loclist():
             k = rng.randint(1, len(locales))
-            return rng.sample(locales, k)
+            ls = rng.sample(locales, k)
+            if rng.random() < 0.2:
+                # the caller's list may REPEAT a locale (adjacent or not): one result per list position all the same
+                i = rng.randrange(len(ls))
+                ls.insert(i + (0 if rng.random() < 0.7 else rng.randrange(len(ls) - i + 1)), ls[i])
+            return ls
 
         def idlist():
             k = rng.choice([0, 1, 1, 2, 2, 3, 4])
